@@ -94,6 +94,12 @@ func (s *STUNConn) ReadFrom(payload []byte) (n int, addr net.Addr, err error) {
 
 	// Then read from the nextConn, appending to our buff
 	n, err = s.nextConn.Read(payload)
+	for n == 0 && err == nil {
+		// An empty read (pion/dtls returns one for every empty record) brings
+		// nothing to parse: read again here instead of through one more
+		// nested ReadFrom per empty read, which grew the stack without bound.
+		n, err = s.nextConn.Read(payload)
+	}
 	if n > 0 && err != nil {
 		// A Read may return data together with an error (io.Reader), as
 		// crypto/tls does for the last record before a close_notify: the
